@@ -12,7 +12,8 @@ MANIFEST = dict(
          "after each event, drop and unhandled hooks EQUAL on the real library and the model. The theorems quantify over NESTED sequences (events inside the source's Subscribe = inside R3, depth one), through an invariant carrying the pending creator; 'nobody listens => released' is proved on the sequences without an inner subscriber (_partial) and witnessed false outside (late release). The nil `sourceSubscription` "
          "dereference of the pinned tree is repaired (a510ca9) and the repaired behaviour is the model: it is reported as a difference if it returns. Open finding: late release "
          "(witness theorem + replay). Concurrent variants (goroutines, -race in thorough) are search/validation only."
-         ' ShareReplay / ShareReplayWithConfig with the unlimited (-1) and zero buffer sizes run through the same sequences.',
+         ' ShareReplay / ShareReplayWithConfig with the unlimited (-1) and zero buffer sizes run through the same sequences.'
+         ' twin=1: the same operator value applied to a second source that has a subscriber of its own for the whole sequence - nothing in common; kind=conn also drives the four NewConnectableObservable* constructors.',
     technique="Lean 4 proof (invariant of an executable transition system, all configurations and event sequences) + differential correspondence; concurrent stress as search",
     ref='5/C11')
 
